@@ -158,4 +158,15 @@ def walkErr (M : MM) (S : Script) (R : Raises) (src : Src) (wrapped : Nat → Bo
   | .error f => some (procError src wrapped (raisedOf f.call.rule f.call.id) f.call)
   | .ok _ => none
 
+/-- a load of several models (`srcs`: text and spans of each, same order): the error
+it fails with is located in the file of the model whose walk raised -/
+def loadErr (S : Script) (R : Raises) (srcs : List Src) (wrapped : Nat → Bool)
+    (raisedOf : Nat → Nat → Raised) (ms : List (MM × Val)) : Option Raised :=
+  match loadE S R ms with
+  | .error kf =>
+    match srcs[kf.1]? with
+    | some src => some (procError src wrapped (raisedOf kf.2.call.rule kf.2.call.id) kf.2.call)
+    | none => none
+  | .ok _ => none
+
 end Proc
